@@ -334,3 +334,309 @@ Section Conserve.
   Theorem unwrap_list_content id t : unwrap_dom id t = true -> tc (unwrap_list id t) = tc t.
   Proof. intros D. now apply unwrap_content_both. Qed.
 End Conserve.
+
+(* ================================ C09: extract / inline ========================================== *)
+
+Lemma find_map_none {A B} (f : A -> option B) l : Forall (fun x => f x = None) l -> find_map f l = None.
+Proof. induction 1 as [|x l Hx _ IH]; cbn; [reflexivity | now rewrite Hx]. Qed.
+
+Lemma find_map_app_none {A B} (f : A -> option B) l r :
+  Forall (fun x => f x = None) l -> find_map f (l ++ r) = find_map f r.
+Proof. induction 1 as [|x l Hx _ IH]; cbn; [reflexivity | now rewrite Hx]. Qed.
+
+Lemma tfind_notin id : forall t, contains t id = false -> tfind id t = None.
+Proof.
+  apply (tree_ind' (fun t => contains t id = false -> tfind id t = None)).
+  intros i n c IH H. apply contains_children in H as [Hi Hc]. cbn [tfind]. rewrite id_eq_T, Hi.
+  apply find_map_none. rewrite Forall_forall in *. intros x Hx. apply IH; auto.
+Qed.
+
+Lemma tfind_root id t : id_eq t id = true -> tfind id t = Some t.
+Proof. destruct t as [i n c]. intros H. cbn [tfind]. now rewrite H. Qed.
+
+(* a node found below a context that is free of the id is found in the whole tree *)
+Lemma tfind_plug id C : ctx_free id C -> forall y z, tfind id y = Some z -> tfind id (plug C y) = Some z.
+Proof.
+  induction 1 as [|f C Hf _ IH]; intros y z Hy; [exact Hy|].
+  destruct f as [i n l r]. destruct Hf as (Hi & Hl & Hr). cbn [plug]. apply IH.
+  cbn [tfind]. rewrite id_eq_T, Hi. rewrite find_map_app_none.
+  - cbn. now rewrite Hy.
+  - eapply Forall_impl; [|exact Hl]. intros t Ht. now apply tfind_notin.
+Qed.
+
+Lemma take_while_app_stop {A} (p : A -> bool) l x r :
+  forallb p l = true -> p x = false -> take_while p (l ++ x :: r) = l.
+Proof.
+  induction l as [|a l IH]; cbn; intros Hl Hx; [now rewrite Hx|].
+  apply andb_prop in Hl as [Ha Hl]. rewrite Ha. now rewrite IH.
+Qed.
+
+Lemma take_while_all {A} (p : A -> bool) l : forallb p l = true -> take_while p l = l.
+Proof. induction l as [|a l IH]; cbn; [reflexivity|]. intros H. apply andb_prop in H as [Ha Hl]. rewrite Ha. now rewrite IH. Qed.
+
+Lemma insert_at_length {A} (l r : list A) x : insert_at (length l) x (l ++ r) = l ++ x :: r.
+Proof. induction l as [|a l IH]; cbn; [destruct r; reflexivity | now rewrite IH]. Qed.
+
+Lemma filter_notid id l :
+  Forall (fun t => id_eq t id = false) l -> filter (fun ch => negb (id_eq ch id)) l = l.
+Proof. induction 1 as [|x l Hx _ IH]; cbn; [reflexivity | now rewrite Hx, IH]. Qed.
+
+Definition nonsec (t : tree) : bool := negb (is_section t).
+
+(* ---------- extract ----------------------------------------------------------------------------- *)
+
+Lemma fold_ok_id (f : tree -> res tree) c :
+  Forall (fun x => f x = Ok x) c ->
+  fold_right (fun ch acc => do r <- acc; do x <- f ch; Ok (x :: r)) (Ok []) c = Ok c.
+Proof. induction 1 as [|x c Hx _ IH]; cbn [fold_right]; [reflexivity|]. rewrite IH. cbn [bind]. now rewrite Hx. Qed.
+
+Lemma fold_ok_middle (f : tree -> res tree) l y y' r :
+  Forall (fun x => f x = Ok x) l -> Forall (fun x => f x = Ok x) r -> f y = Ok y' ->
+  fold_right (fun ch acc => do r <- acc; do x <- f ch; Ok (x :: r)) (Ok []) (l ++ y :: r) = Ok (l ++ y' :: r).
+Proof.
+  intros Hl Hr Hy. induction Hl as [|x l Hx _ IH]; cbn [app fold_right].
+  - rewrite (fold_ok_id f r Hr). cbn [bind]. now rewrite Hy.
+  - rewrite IH. cbn [bind]. now rewrite Hx.
+Qed.
+
+Lemma extract_rec_notin e p k : forall t, contains t p = false -> extract_rec e p k t = Ok t.
+Proof.
+  apply (tree_ind' (fun t => contains t p = false -> extract_rec e p k t = Ok t)).
+  intros i n c IH H. apply contains_children in H as [Hi Hc]. cbn [extract_rec]. rewrite id_eq_T, Hi.
+  rewrite (fold_ok_id (fun ch => extract_rec e p k ch) c); [reflexivity|].
+  rewrite Forall_forall in *. intros x Hx. apply IH; auto.
+Qed.
+
+Lemma extract_rec_plug e p k C : ctx_free p C -> forall y y',
+  extract_rec e p k y = Ok y' -> extract_rec e p k (plug C y) = Ok (plug C y').
+Proof.
+  induction 1 as [|f C Hf _ IH]; intros y y' Hy; [exact Hy|].
+  destruct f as [i n l r]. destruct Hf as (Hi & Hl & Hr). cbn [plug]. apply IH.
+  cbn [extract_rec]. rewrite id_eq_T, Hi.
+  rewrite (fold_ok_middle (fun ch => extract_rec e p k ch) l y y' r); [reflexivity| | |exact Hy];
+    (eapply Forall_impl; [|eassumption]); intros t Ht; now apply extract_rec_notin.
+Qed.
+
+(* the parent of the extracted section: non-section children [l1], sections [m] before the
+   extracted one [x], the rest [r] *)
+Lemma extract_at_parent e p k i n l1 m x r :
+  oid_is i p = true -> oid_is i e = false ->
+  forallb nonsec l1 = true -> forallb is_section m = true -> is_section x = true -> id_eq x e = true ->
+  Forall (fun t => contains t e = false) l1 -> Forall (fun t => contains t e = false) m ->
+  Forall (fun t => id_eq t e = false) r ->
+  extract_rec e p k (T i n (l1 ++ m ++ x :: r)) =
+  Ok (T i n (l1 ++ ref_tree k (node_plain_text (t_node x)) :: m ++ r)).
+Proof.
+  intros Hp He Hl1 Hm Hx Hxe Nl1 Nm Nr. cbn [extract_rec]. rewrite id_eq_T, Hp.
+  assert (Hf : tfind e (T i n (l1 ++ m ++ x :: r)) = Some x).
+  { cbn [tfind]. rewrite id_eq_T, He. rewrite find_map_app_none, find_map_app_none.
+    - cbn. now rewrite (tfind_root e x Hxe).
+    - eapply Forall_impl; [|exact Nm]. intros t Ht. now apply tfind_notin.
+    - eapply Forall_impl; [|exact Nl1]. intros t Ht. now apply tfind_notin. }
+  rewrite Hf. f_equal. f_equal.
+  assert (Hpos : pre_sub_header_position (T i n (l1 ++ m ++ x :: r)) = length l1).
+  { unfold pre_sub_header_position. cbn [t_children]. destruct m as [|m0 m'].
+    - cbn [app]. rewrite take_while_app_stop; [reflexivity | exact Hl1 | now rewrite Hx].
+    - cbn [app]. cbn [forallb] in Hm. apply andb_prop in Hm as [Hm0 _].
+      rewrite take_while_app_stop; [reflexivity | exact Hl1 | now rewrite Hm0]. }
+  rewrite Hpos.
+  assert (Hfil : filter (fun ch => negb (id_eq ch e)) (l1 ++ m ++ x :: r) = l1 ++ m ++ r).
+  { rewrite !filter_app. cbn [filter]. rewrite Hxe. cbn [negb].
+    rewrite !filter_notid; [reflexivity|exact Nr| |].
+    - eapply Forall_impl; [|exact Nm]. intros [ti tn tc] Ht. apply contains_children in Ht as [Ht _]. now rewrite id_eq_T.
+    - eapply Forall_impl; [|exact Nl1]. intros [ti tn tc] Ht. apply contains_children in Ht as [Ht _]. now rewrite id_eq_T. }
+  rewrite Hfil. apply insert_at_length.
+Qed.
+
+(* C09_extract, tree level: the source differs from the original only at the parent of the
+   extracted section, where that section is taken out and one reference, titled with the plain
+   text of its heading, stands at the pre-sub-header position; the new note is the section. *)
+Theorem extract_spec e p k C i n l1 m x r :
+  ctx_free p C -> ctx_free e C ->
+  oid_is i p = true -> oid_is i e = false ->
+  forallb nonsec l1 = true -> forallb is_section m = true -> is_section x = true -> id_eq x e = true ->
+  Forall (fun t => contains t e = false) l1 -> Forall (fun t => contains t e = false) m ->
+  Forall (fun t => id_eq t e = false) r ->
+  let src := plug C (T i n (l1 ++ m ++ x :: r)) in
+  extract_rec e p k src = Ok (plug C (T i n (l1 ++ ref_tree k (node_plain_text (t_node x)) :: m ++ r))) /\
+  tget src e = Ok x.
+Proof.
+  intros HCp HCe Hp He Hl1 Hm Hx Hxe Nl1 Nm Nr src. split.
+  - apply extract_rec_plug; [exact HCp|]. now apply extract_at_parent.
+  - unfold tget, src. erewrite tfind_plug; [reflexivity | exact HCe |].
+    cbn [tfind]. rewrite id_eq_T, He. rewrite find_map_app_none, find_map_app_none.
+    + cbn. now rewrite (tfind_root e x Hxe).
+    + eapply Forall_impl; [|exact Nm]. intros t Ht. now apply tfind_notin.
+    + eapply Forall_impl; [|exact Nl1]. intros t Ht. now apply tfind_notin.
+Qed.
+
+(* ---------- content through a context whose frames are documents, sections and quotes ----------- *)
+
+Definition flat_node (n : node) : bool :=
+  match n with NDocument _ | NSection _ | NQuote => true | _ => false end.
+Definition flat_ctx (C : list frame) : Prop := Forall (fun f => match f with F _ n _ _ => flat_node n = true end) C.
+
+Section ExtractContent.
+  Variable parent : string.
+  Notation tc := (tcontent parent).
+
+  Definition node_head (n : node) : list citem := match n with NSection l => [CI l] | _ => [] end.
+
+  Lemma tc_flat i n c : flat_node n = true -> tc (T i n c) = node_head n ++ flat_map tc c.
+  Proof. destruct n; try discriminate; reflexivity. Qed.
+
+  Fixpoint cpre (C : list frame) : list citem :=
+    match C with [] => [] | F _ n l _ :: C' => cpre C' ++ node_head n ++ flat_map tc l end.
+  Fixpoint cpost (C : list frame) : list citem :=
+    match C with [] => [] | F _ _ _ r :: C' => flat_map tc r ++ cpost C' end.
+
+  Lemma tc_plug C : flat_ctx C -> forall y, tc (plug C y) = cpre C ++ tc y ++ cpost C.
+  Proof.
+    induction 1 as [|f C Hf _ IH]; intros y; cbn [plug cpre cpost]; [now rewrite app_nil_r|].
+    destruct f as [i n l r]. rewrite IH. rewrite (tc_flat i n _ Hf). rewrite flat_map_app. cbn [flat_map].
+    now rewrite <- !app_assoc.
+  Qed.
+
+  Lemma perm_move (A M X R : list citem) (ref : citem) :
+    Permutation ((A ++ ref :: M ++ R) ++ X) (ref :: A ++ M ++ X ++ R).
+  Proof.
+    rewrite <- app_assoc. cbn [app]. apply Permutation_sym, Permutation_cons_app.
+    apply Permutation_app_head. rewrite <- app_assoc. apply Permutation_app_head. apply Permutation_app_comm.
+  Qed.
+
+  (* C09_extract, content: the source after the extraction together with the new note holds
+     every content line of the original exactly once, plus the one reference line *)
+  Theorem extract_content C i n l1 m x r k text :
+    flat_ctx C -> flat_node n = true ->
+    Permutation
+      (tc (plug C (T i n (l1 ++ ref_tree k text :: m ++ r))) ++ tc x)
+      (CI (ref_inlines parent k text Regular) :: tc (plug C (T i n (l1 ++ m ++ x :: r)))).
+  Proof.
+    intros HC Hn. rewrite !tc_plug by exact HC. rewrite !(tc_flat i n _ Hn).
+    rewrite !flat_map_app. cbn [flat_map ref_tree tcontent]. rewrite !flat_map_app. cbn [app].
+    rewrite <- !app_assoc. cbn [app].
+    rewrite (app_assoc (cpre C)), (app_assoc (cpre C ++ node_head n)).
+    rewrite (app_assoc (cpre C) (node_head n) (flat_map tc l1 ++ flat_map tc m ++ tc x ++ flat_map tc r ++ cpost C)),
+            (app_assoc (cpre C ++ node_head n) (flat_map tc l1)).
+    apply Permutation_sym, Permutation_cons_app. apply Permutation_app_head.
+    rewrite <- app_assoc. apply Permutation_app_head.
+    rewrite (app_assoc (flat_map tc r)). apply Permutation_app_comm.
+  Qed.
+End ExtractContent.
+
+(* ---------- inline ---------------------------------------------------------------------------- *)
+
+Lemma remove_node_spec id i n c :
+  remove_node id (T i n c) = T i n (map (fun ch => remove_node id ch) (filter (fun ch => negb (id_eq ch id)) c)).
+Proof.
+  cbn [remove_node]. f_equal. induction c as [|x c IH]; [reflexivity|].
+  cbn [filter]. destruct (id_eq x id); cbn [negb map]; now rewrite IH.
+Qed.
+
+Lemma remove_node_notin id : forall t, contains t id = false -> remove_node id t = t.
+Proof.
+  apply (tree_ind' (fun t => contains t id = false -> remove_node id t = t)).
+  intros i n c IH H. apply contains_children in H as [Hi Hc]. rewrite remove_node_spec.
+  rewrite filter_notid.
+  - f_equal. apply map_id_forall. rewrite Forall_forall in *. intros x Hx. apply IH; auto.
+  - eapply Forall_impl; [|exact Hc]. intros [ti tn tk] Ht. apply contains_children in Ht as [Ht _]. now rewrite id_eq_T.
+Qed.
+
+Lemma remove_node_plug id C : ctx_free id C -> forall y, id_eq y id = false ->
+  remove_node id (plug C y) = plug C (remove_node id y).
+Proof.
+  induction 1 as [|f C Hf _ IH]; intros y Hy; [reflexivity|].
+  destruct f as [i n l r]. destruct Hf as (Hi & Hl & Hr). cbn [plug]. rewrite IH by (now rewrite id_eq_T). f_equal.
+  rewrite remove_node_spec. f_equal.
+  assert (Hnl : forall q, Forall (fun t => contains t id = false) q -> Forall (fun t => id_eq t id = false) q).
+  { intros q Hq. eapply Forall_impl; [|exact Hq]. intros [ti tn tk] Ht. apply contains_children in Ht as [Ht _]. now rewrite id_eq_T. }
+  rewrite filter_app. cbn [filter]. rewrite Hy. cbn [negb]. rewrite !filter_notid by auto.
+  apply map_middle; eapply forall_notin; eauto using remove_node_notin.
+Qed.
+
+Lemma aph_notin id new : forall t, contains t id = false -> append_pre_header id new t = t.
+Proof.
+  apply (tree_ind' (fun t => contains t id = false -> append_pre_header id new t = t)).
+  intros i n c IH H. apply contains_children in H as [Hi Hc]. cbn [append_pre_header]. rewrite id_eq_T, Hi.
+  f_equal. apply map_id_forall. rewrite Forall_forall in *. intros x Hx. apply IH; auto.
+Qed.
+
+Lemma aph_plug id new C : ctx_free id C -> forall y,
+  append_pre_header id new (plug C y) = plug C (append_pre_header id new y).
+Proof.
+  induction 1 as [|f C Hf _ IH]; intros y; [reflexivity|].
+  destruct f as [i n l r]. destruct Hf as (Hi & Hl & Hr). cbn [plug]. rewrite IH. f_equal.
+  cbn [append_pre_header]. rewrite id_eq_T, Hi. f_equal.
+  apply map_middle; eapply forall_notin; eauto using aph_notin.
+Qed.
+
+(* C09_inline_section, tree level: the reference [R] (id tid) is removed from the section (id sid)
+   that holds it and the referenced note's tree [inl] stands, as it is, at the pre-sub-header
+   position of that section; everything else is the same term. *)
+Theorem inline_section_spec sid tid inl C i n a R b :
+  ctx_free tid C -> ctx_free sid C ->
+  oid_is i sid = true -> oid_is i tid = false -> id_eq R tid = true ->
+  Forall (fun t => contains t tid = false) a -> Forall (fun t => contains t tid = false) b ->
+  Forall (fun t => contains t sid = false) a -> Forall (fun t => contains t sid = false) b ->
+  append_pre_header sid inl (remove_node tid (plug C (T i n (a ++ R :: b)))) =
+  plug C (T i n (insert_at (pre_sub_header_position (T i n (a ++ b))) inl (a ++ b))).
+Proof.
+  intros HCt HCs Hs Ht HR Ta Tb Sa Sb.
+  rewrite remove_node_plug by (auto; now rewrite id_eq_T). rewrite aph_plug by exact HCs. f_equal.
+  rewrite remove_node_spec.
+  assert (Hnl : forall q, Forall (fun t => contains t tid = false) q -> Forall (fun t => id_eq t tid = false) q).
+  { intros q Hq. eapply Forall_impl; [|exact Hq]. intros [ti tn tk] Hc. apply contains_children in Hc as [Hc _]. now rewrite id_eq_T. }
+  rewrite filter_app. cbn [filter]. rewrite HR. cbn [negb]. rewrite !filter_notid by auto. rewrite <- filter_notid with (id := tid) (l := a) at 1 by auto.
+  rewrite filter_notid by auto.
+  rewrite (map_id_forall (fun ch => remove_node tid ch) (a ++ b)).
+  2:{ apply Forall_app. split; eapply forall_notin; eauto using remove_node_notin. }
+  cbn [append_pre_header]. rewrite id_eq_T, Hs.
+  rewrite (map_id_forall (fun ch => append_pre_header sid inl ch) (a ++ b)).
+  2:{ apply Forall_app. split; eapply forall_notin; eauto using aph_notin. }
+  reflexivity.
+Qed.
+
+(* C09_inline_quote, tree level: the reference is replaced, in place, by a quote holding the
+   children of the referenced note's tree *)
+Theorem inline_quote_spec tid inl C i n c :
+  ctx_free tid C -> oid_is i tid = true ->
+  replace tid (T None NQuote (t_children inl)) (plug C (T i n c)) = plug C (T None NQuote (t_children inl)).
+Proof.
+  intros HC Hi. revert HC. generalize (T None NQuote (t_children inl)) as q. intros q HC.
+  assert (H : forall y, replace tid q (plug C y) = plug C (replace tid q y)).
+  { induction HC as [|f C Hf _ IH]; intros y; [reflexivity|].
+    destruct f as [fi fn l r]. destruct Hf as (Hfi & Hl & Hr). cbn [plug]. rewrite IH. f_equal.
+    cbn [replace]. rewrite id_eq_T, Hfi. f_equal.
+    apply map_middle; eapply forall_notin; eauto using replace_notin. }
+  rewrite H. cbn [replace]. now rewrite id_eq_T, Hi.
+Qed.
+
+(* C09_roundtrip, tree level: extract the first sub-section [x] (reference at its place), then
+   inline that reference (re-read with id tid) with the new note's tree (a document node over
+   [x]): the section holds the document node exactly where [x] was, and a document node is
+   transparent to the projector, so what is written is what was written for the original. *)
+Theorem roundtrip_spec sid tid C i n l1 x r R dk di :
+  ctx_free tid C -> ctx_free sid C ->
+  oid_is i sid = true -> oid_is i tid = false -> id_eq R tid = true ->
+  forallb nonsec l1 = true -> (match r with [] => true | y :: _ => is_section y end) = true ->
+  Forall (fun t => contains t tid = false) l1 -> Forall (fun t => contains t tid = false) r ->
+  Forall (fun t => contains t sid = false) l1 -> Forall (fun t => contains t sid = false) r ->
+  append_pre_header sid (T di (NDocument dk) [x]) (remove_node tid (plug C (T i n (l1 ++ R :: r)))) =
+  plug C (T i n (l1 ++ T di (NDocument dk) [x] :: r)).
+Proof.
+  intros HCt HCs Hs Ht HR Hl1 Hr Tl Tr Sl Sr.
+  rewrite (inline_section_spec sid tid _ C i n l1 R r) by assumption. f_equal. f_equal.
+  assert (Hpos : pre_sub_header_position (T i n (l1 ++ r)) = length l1).
+  { unfold pre_sub_header_position. cbn [t_children]. destruct r as [|y r'].
+    - rewrite app_nil_r. now rewrite take_while_all.
+    - rewrite take_while_app_stop; [reflexivity | exact Hl1 | now rewrite Hr]. }
+  rewrite Hpos. apply insert_at_length.
+Qed.
+
+Lemma project_document_transparent parent hl i n l di dk x r :
+  flat_node n = true ->
+  project_node parent hl (T i n (l ++ T di (NDocument dk) [x] :: r)) = project_node parent hl (T i n (l ++ x :: r)).
+Proof.
+  intros Hn. destruct n; try discriminate; cbn [project_node];
+    rewrite !flat_map_app; cbn [flat_map project_node]; now rewrite app_nil_r.
+Qed.
